@@ -1,6 +1,8 @@
 package mj
 
 import (
+	"bytes"
+	"fmt"
 	"errors"
 	"io"
 	"reflect"
@@ -81,7 +83,22 @@ func EngineRun(p *Program, funcs map[string]jet.Func) (jetrun.Outcome, jet.VarMa
 		}
 	}
 	for k, f := range funcs {
+		if p.NilVars {
+			s.AddGlobalFunc(k, f)
+			continue
+		}
 		vars.SetFunc(k, f)
+	}
+	if p.NilVars {
+		// what the case needs as variables is supplied through the Set's globals instead
+		for k, v := range vars {
+			if v.IsValid() {
+				s.AddGlobal(k, v.Interface())
+			} else {
+				s.AddGlobal(k, nil)
+			}
+		}
+		vars = nil
 	}
 	if len(p.Late) > 0 {
 		func() {
@@ -136,6 +153,38 @@ func EngineRun(p *Program, funcs map[string]jet.Func) (jetrun.Outcome, jet.VarMa
 			_ = t.Execute(&brokenWriter{left: p.BrokenFirst}, vars0, data0)
 		}()
 	}
+	if p.FailOnPrefix != "" {
+		w := &refusingWriter{prefix: []byte(p.FailOnPrefix)}
+		o := jetrun.Outcome{}
+		func() {
+			defer func() {
+				if r := recover(); r != nil {
+					o.Panicked, o.PanicVal = true, fmt.Sprint(r)
+				}
+			}()
+			o.Err = t.Execute(w, vars, data)
+		}()
+		o.Out = string(w.got)
+		if w.refused && !o.Panicked {
+			o.PanicVal = "refused"
+		}
+		return o, vars, src
+	}
+	if p.FailingWriter > 0 {
+		// the observed Execute writes into a destination that takes FailingWriter-1 bytes and then fails
+		w := &brokenWriter{left: p.FailingWriter - 1, keep: true}
+		o := jetrun.Outcome{}
+		func() {
+			defer func() {
+				if r := recover(); r != nil {
+					o.Panicked, o.PanicVal = true, fmt.Sprint(r)
+				}
+			}()
+			o.Err = t.Execute(w, vars, data)
+		}()
+		o.Out = string(w.got)
+		return o, vars, src
+	}
 	return jetrun.Exec(t, vars, data), vars, src
 }
 
@@ -160,15 +209,41 @@ func mkSafeWriter(f func([]byte) []byte) jet.SafeWriter {
 }
 
 // brokenWriter accepts left bytes and fails from then on.
-type brokenWriter struct{ left int }
+// refusingWriter fails once: on the first Write whose payload begins with prefix.
+type refusingWriter struct {
+	prefix  []byte
+	refused bool
+	got     []byte
+}
+
+func (w *refusingWriter) Write(b []byte) (int, error) {
+	if !w.refused && bytes.HasPrefix(b, w.prefix) {
+		w.refused = true
+		return 0, errors.New("connection reset (once)")
+	}
+	w.got = append(w.got, b...)
+	return len(b), nil
+}
+
+type brokenWriter struct {
+	left int
+	keep bool
+	got  []byte
+}
 
 func (w *brokenWriter) Write(b []byte) (int, error) {
 	if len(b) <= w.left {
 		w.left -= len(b)
+		if w.keep {
+			w.got = append(w.got, b...)
+		}
 		return len(b), nil
 	}
 	n := w.left
 	w.left = 0
+	if w.keep {
+		w.got = append(w.got, b[:n]...)
+	}
 	return n, errors.New("broken pipe")
 }
 
@@ -184,6 +259,10 @@ func ModelRun(p *Program, setup func(*Interp)) (res Result, discard string) {
 	for k, r := range p.Vars {
 		if r.T == "swcustom" {
 			vars[k] = fnValue{"swCustom"}
+			continue
+		}
+		if r.T == "ifunc" {
+			vars[k] = fnValue{fmt.Sprintf("ifunc:%d", r.I)}
 			continue
 		}
 		vars[k] = Build(r)
